@@ -25,7 +25,9 @@ RULE = (
     "Hypothesis wraps valid generated OVF / VirtualBox / PVS / Parallels DiskDescriptor documents in a prolog drawn from a "
     "grammar: internal general entities (nesting depth 1..12, fan-out 2..10: billion-laughs and quadratic blow-up), parameter "
     "entities, external general and parameter entities (file:// canary, http://127.0.0.1, relative path), unparsed NDATA "
-    "entities, external DTD subset only, internal subset without entities, no DOCTYPE; entity referenced in element text / "
+    "entities, entities with empty replacement text or an empty system literal, external DTD subset only, internal subset "
+    "without entities, no DOCTYPE; an external identifier in front of an internal subset; 0..300000 characters of comment / PI / "
+    "white space in front of the DOCTYPE and inside the internal subset; entity referenced in element text / "
     "attribute or merely declared; str and bytes handles, UTF-8 with/without BOM and UTF-16. Entry points OVF(fh), VBox(fh), "
     "PVS(fh), HDD(dir) / hdd.Descriptor(path). Oracles: (1) a document that declares an entity makes the constructor raise; "
     "(2) for every document no audit event opens the canary or touches socket/urllib and the canary content appears in no "
@@ -40,7 +42,9 @@ ASSUMPTIONS = [
 ]
 
 ENTRY = ["ovf", "vbox", "pvs", "hdd"]
-PROLOGS = ["internal", "internal", "internal-deep", "param", "external-general", "external-param", "ndata", "dtd-only", "subset-no-entity", "none"]
+PROLOGS = ["internal", "internal", "internal-deep", "param", "external-general", "external-param", "ndata", "dtd-only", "subset-no-entity", "none",
+           "internal-empty", "param-empty"]
+LEADS = [0, 0, 0, 0, 40, 16384, 16400, 70000, 300000]
 CANARY_TEXT = "CANARY-7f3a9c-SECRET-CONTENT"
 _STATE = {"events": [], "active": False, "installed": False, "canary": None, "dir": None}
 
@@ -86,8 +90,13 @@ def hostile_spec(draw, tier):
     kind = draw(st.sampled_from(PROLOGS))
     return {
         "entry": entry, "base": base, "prolog": kind, "depth": draw(st.integers(1, 12)), "fanout": draw(st.integers(2, 10)),
-        "leaf": draw(st.sampled_from(["lol", "A" * 50, "x"])), "used": draw(st.sampled_from(["text", "attr", "no", "text"])),
-        "target": draw(st.sampled_from(["file-canary", "http-local", "relative", "file-canary"])),
+        "leaf": draw(st.sampled_from(["lol", "A" * 50, "x", ""])), "used": draw(st.sampled_from(["text", "attr", "no", "text"])),
+        "target": draw(st.sampled_from(["file-canary", "http-local", "relative", "file-canary", "empty"])),
+        # filler (comment / processing instruction / white space) in front of the DOCTYPE and inside the internal subset
+        "lead": draw(st.sampled_from(LEADS)), "lead_kind": draw(st.sampled_from(["comment", "pi", "space"])),
+        "subset_lead": draw(st.sampled_from(LEADS)),
+        # an external identifier on a DOCTYPE that also has an internal subset
+        "extid": draw(st.sampled_from([None, None, "SYSTEM", "PUBLIC"])),
         "handle": draw(st.sampled_from(["str", "str", "bytes-utf8", "bytes-utf8-bom", "bytes-utf16"])),
         "alt_ns": draw(st.sampled_from([None, None, None, "http://www.innotek.de/VirtualBox-settings", "urn:example:other"])),
         "trailer": draw(st.sampled_from(["", "", "<!-- trailing comment -->", "<?pi data?>", "\n\n<!-- a --><!-- b -->\n"])),
@@ -100,11 +109,41 @@ def strategy(tier):
     return hostile_spec(tier)
 
 
+def _filler(kind, n):
+    if n <= 0:
+        return ""
+    if kind == "comment":
+        return "<!-- " + "banner ".ljust(n, "=") + " -->\n"
+    if kind == "pi":
+        return "<?pad " + "x".ljust(n, "y") + "?>\n"
+    return " " * (n - 1) + "\n"
+
+
 def make_prolog(spec, canary):
     """-> (doctype text, name of the entity to reference | None, declares_entity)"""
+    doctype, ent, declares = _make_prolog(spec, canary)
+    if "[" in doctype:
+        if spec.get("subset_lead"):
+            doctype = doctype.replace("[\n", "[\n" + _filler("comment" if spec.get("lead_kind") != "pi" else "pi", spec["subset_lead"]), 1)
+        if spec.get("extid") and " SYSTEM " not in doctype.split("[", 1)[0]:
+            target = _target(spec, canary)
+            ext = f'SYSTEM "{target}"' if spec["extid"] == "SYSTEM" else f'PUBLIC "-//X//DTD x//EN" "{target}"'
+            doctype = doctype.replace(" [", f" {ext} [", 1)
+    return _filler(spec.get("lead_kind", "comment"), spec.get("lead", 0)) + doctype, ent, declares
+
+
+def _target(spec, canary):
+    return {"file-canary": "file://" + canary, "http-local": "http://127.0.0.1:9/x.dtd", "relative": "hostile-rel.txt", "empty": ""}[spec["target"]]
+
+
+def _make_prolog(spec, canary):
     kind = spec["prolog"]
     name = spec["doctype_name"]
-    target = {"file-canary": "file://" + canary, "http-local": "http://127.0.0.1:9/x.dtd", "relative": "hostile-rel.txt"}[spec["target"]]
+    target = _target(spec, canary)
+    if kind == "internal-empty":
+        return f'<!DOCTYPE {name} [\n  <!ENTITY n "">\n]>', "n", True
+    if kind == "param-empty":
+        return f'<!DOCTYPE {name} [\n  <!ENTITY % n "">\n  %n;\n]>', None, True
     if kind == "none":
         return "", None, False
     if kind == "dtd-only":
